@@ -85,7 +85,7 @@ var OpArity = []struct {
 	{"load", 1, "dict"}, {"known", 2, "dict"}, {"where", 1, "dict"}, {"currentdict", 0, "dict"},
 	{"definefont", 2, "font"}, {"findfont", 1, "font"}, {"defineresource", 3, "resource"}, {"findresource", 2, "resource"},
 	{"exec", 1, "control"}, {"if", 2, "control"}, {"ifelse", 3, "control"}, {"repeat", 2, "control"}, {"for", 4, "control"},
-	{"bind", 1, "control"}, {"readonly", 1, "misc"}, {"executeonly", 1, "misc"}, {"noaccess", 1, "misc"},
+	{"bind", 1, "control"}, {"internaldict", 1, "misc"}, {"readonly", 1, "misc"}, {"executeonly", 1, "misc"}, {"noaccess", 1, "misc"},
 }
 
 // TupleProgram builds the program for one operand tuple: the operands, then
